@@ -476,7 +476,7 @@ F("H02", "C12", NS, "  p_value = math.erfc(abs(v_obs - 2 * n * pp) / (2 * math.s
 F("H03", "C12", NS, "  chi_square = sum((c - n * p)**2 / (n * p) for c, p in zip(count, prob))", "  chi_square = sum((c - n * p)**2 / n for c, p in zip(count, prob))", "R-C12-FORMULA", "chi-square not divided by p")
 F("H04", "C12", NS, "    k = len(count) - 1\n", "    k = len(count)\n", "R-C12-FORMULA", "chi-square default degrees of freedom")
 F("H05", "C12", NS, "  variance = n * (1 / 2**m - (2 * m - 1) / 2**(2 * m))", "  variance = n * (1 / 2**m - (2 * m + 1) / 2**(2 * m))", "R-C12-FORMULA", "template variance")
-F("H06", "C12", NS, "    p_value2 = util.Igamc(2**(m - 3), d2_psi / 2)", "    p_value2 = util.Igamc(2**(m - 2), d2_psi / 2)", "R-C12-FORMULA", "Serial second p-value shape parameter")
+F("H06", "C12", NS, "    p_value2 = util.Igamc(2**(m - 3), max(0.0, d2_psi) / 2)", "    p_value2 = util.Igamc(2**(m - 2), max(0.0, d2_psi) / 2)", "R-C12-FORMULA", "Serial second p-value shape parameter")
 F("H07", "C12", NS, "    res += math.erf((4 * k - 1) * t)\n    res -= math.erf((4 * k + 1) * t)", "    res += math.erf((4 * k - 1) * t)\n    res -= math.erf((4 * k + 3) * t)", "R-C12-FORMULA", "cusum first series term")
 F("H08", "C12", NS, "  k = math.ceil(mink)\n  res = 0.0\n  while k <= maxk:", "  k = math.ceil(mink)\n  res = 0.0\n  while k < maxk:", "R-C12-FORMULA", "cusum series drops the last term")
 T("H09", "C12", NS, "  s_obs = abs(s) / math.sqrt(n)\n  p_value = math.erfc(s_obs / math.sqrt(2))", "  p_value = math.erfc(abs(s) / math.sqrt(n) / math.sqrt(2))", "Frequency: temp inlined")
@@ -1091,3 +1091,10 @@ S("W35", "C19", "C19-r10a", "R-C19-LINALG", "In linalg_util.echelon_form, when a
 S("W36", "C19", "C19-r10b", "R-C19-SQRT", "In ntheory_util.Sqrt2exp the brute-force fall-back branch for k < 3 now compares x*x % 2**")
 S("W37", "C20", "C20-r10a", "R-C20-WIDTH", "XorShift128plus.RandomBits computes the number of 64-bit blocks as n // 64 + 1 instead of ")
 S("W38", "C20", "C20-r10b", "R-C20-PURE", "XorShiftStar.RandomBits now treats a seed whose low 64 bits are zero like a missing seed: ")
+
+
+# ---------------------------------------------------------------------------------- arguments inside the domain (findings 14 / 15, fixed 56dc496 / b083ef8)
+F("U38", "C12", NS, "    p_value2 = util.Igamc(2**(m - 3), max(0.0, d2_psi) / 2)", "    p_value2 = util.Igamc(2**(m - 3), d2_psi / 2)", "R-C12-DOMAIN", "the defect itself: second difference unclamped (NaN)")
+F("U39", "C12", NS, "  if abs(pi - 0.5) >= 2 / math.sqrt(n):\n    return 0.0\n  v_obs", "  v_obs", "R-C12-DOMAIN", "the defect itself: no prerequisite, division by pi (1 - pi) = 0 on constant strings")
+T("U40", "C12", NS, "    p_value2 = util.Igamc(2**(m - 3), max(0.0, d2_psi) / 2)", "    if d2_psi < 0:\n      d2_psi = 0.0\n    p_value2 = util.Igamc(2**(m - 3), d2_psi / 2)", "clamp spelled as a branch")
+F("U41", "C12", NS, "  if abs(pi - 0.5) >= 2 / math.sqrt(n):\n    return 0.0", "  if abs(pi - 0.5) >= 1 / math.sqrt(n):\n    return 0.0", "R-C12-FORMULA", "prerequisite with the wrong threshold")
